@@ -12,9 +12,9 @@ import (
 
 func init() {
 	register("C02", &propSpec{
-		level: "other",
+		level:       "other",
 		explanation: "Structural necessary conditions of 'one response per request, with its id, in arrival order', decided for every path of the receive loops, dispatcher, workers and controller: exhaustive dispatch of every packet type makePacket can build (dispatch simulation of the type switches); exactly one readyPacket per dispatched request on every CFG path; every response id and order id traces (value provenance, closed over call sites) to the request being answered; order-id counter, sort, head-match and single-sender discipline of the packet manager; reply types legal per request type; responses not abandoned at shutdown. Decides the shape of the mechanism, not a run of it.",
-		run: runC02,
+		run:         runC02,
 		assumptions: []string{
 			"user handlers return (a handler that blocks forever withholds its response by definition)",
 			"the transport's Write does not reorder bytes",
@@ -23,29 +23,29 @@ func init() {
 }
 
 var legalReplies = map[string][]string{
-	"sshFxInitPacket":                  {"sshFxVersionPacket"},
-	"sshFxpOpenPacket":                 {"sshFxpHandlePacket", "sshFxpStatusPacket"},
-	"sshFxpOpendirPacket":              {"sshFxpHandlePacket", "sshFxpStatusPacket"},
-	"sshFxpReadPacket":                 {"sshFxpDataPacket", "sshFxpStatusPacket"},
-	"sshFxpLstatPacket":                {"sshFxpStatResponse", "sshFxpStatusPacket"},
-	"sshFxpStatPacket":                 {"sshFxpStatResponse", "sshFxpStatusPacket"},
-	"sshFxpFstatPacket":                {"sshFxpStatResponse", "sshFxpStatusPacket"},
-	"sshFxpReaddirPacket":              {"sshFxpNamePacket", "sshFxpStatusPacket"},
-	"sshFxpRealpathPacket":             {"sshFxpNamePacket", "sshFxpStatusPacket"},
-	"sshFxpReadlinkPacket":             {"sshFxpNamePacket", "sshFxpStatusPacket"},
-	"sshFxpExtendedPacketStatVFS":      {"StatVFS", "sshFxpStatusPacket"},
-	"sshFxpExtendedPacket":             {"StatVFS", "sshFxpStatusPacket"},
-	"sshFxpClosePacket":                {"sshFxpStatusPacket"},
-	"sshFxpWritePacket":                {"sshFxpStatusPacket"},
-	"sshFxpSetstatPacket":              {"sshFxpStatusPacket"},
-	"sshFxpFsetstatPacket":             {"sshFxpStatusPacket"},
-	"sshFxpRemovePacket":               {"sshFxpStatusPacket"},
-	"sshFxpMkdirPacket":                {"sshFxpStatusPacket"},
-	"sshFxpRmdirPacket":                {"sshFxpStatusPacket"},
-	"sshFxpRenamePacket":               {"sshFxpStatusPacket"},
-	"sshFxpSymlinkPacket":              {"sshFxpStatusPacket"},
-	"sshFxpExtendedPacketPosixRename":  {"sshFxpStatusPacket"},
-	"sshFxpExtendedPacketHardlink":     {"sshFxpStatusPacket"},
+	"sshFxInitPacket":                 {"sshFxVersionPacket"},
+	"sshFxpOpenPacket":                {"sshFxpHandlePacket", "sshFxpStatusPacket"},
+	"sshFxpOpendirPacket":             {"sshFxpHandlePacket", "sshFxpStatusPacket"},
+	"sshFxpReadPacket":                {"sshFxpDataPacket", "sshFxpStatusPacket"},
+	"sshFxpLstatPacket":               {"sshFxpStatResponse", "sshFxpStatusPacket"},
+	"sshFxpStatPacket":                {"sshFxpStatResponse", "sshFxpStatusPacket"},
+	"sshFxpFstatPacket":               {"sshFxpStatResponse", "sshFxpStatusPacket"},
+	"sshFxpReaddirPacket":             {"sshFxpNamePacket", "sshFxpStatusPacket"},
+	"sshFxpRealpathPacket":            {"sshFxpNamePacket", "sshFxpStatusPacket"},
+	"sshFxpReadlinkPacket":            {"sshFxpNamePacket", "sshFxpStatusPacket"},
+	"sshFxpExtendedPacketStatVFS":     {"StatVFS", "sshFxpStatusPacket"},
+	"sshFxpExtendedPacket":            {"StatVFS", "sshFxpStatusPacket"},
+	"sshFxpClosePacket":               {"sshFxpStatusPacket"},
+	"sshFxpWritePacket":               {"sshFxpStatusPacket"},
+	"sshFxpSetstatPacket":             {"sshFxpStatusPacket"},
+	"sshFxpFsetstatPacket":            {"sshFxpStatusPacket"},
+	"sshFxpRemovePacket":              {"sshFxpStatusPacket"},
+	"sshFxpMkdirPacket":               {"sshFxpStatusPacket"},
+	"sshFxpRmdirPacket":               {"sshFxpStatusPacket"},
+	"sshFxpRenamePacket":              {"sshFxpStatusPacket"},
+	"sshFxpSymlinkPacket":             {"sshFxpStatusPacket"},
+	"sshFxpExtendedPacketPosixRename": {"sshFxpStatusPacket"},
+	"sshFxpExtendedPacketHardlink":    {"sshFxpStatusPacket"},
 }
 
 // wrappers of the request server: which reply types each may produce
